@@ -14,3 +14,17 @@ var VerifListenTCP = func(network string, laddr *net.TCPAddr) (net.Listener, err
 }
 
 var VerifDialTCP = net.DialTCP
+
+// VerifResolveTCPAddr replaces net.ResolveTCPAddr: inside the simulation there is no resolver - a host that is
+// not an IP literal (a client can put anything into a PORT command) fails like an unknown name would, at once,
+// instead of starting a real DNS lookup from inside the bubble.
+var VerifResolveTCPAddr = func(network, address string) (*net.TCPAddr, error) {
+	host, _, err := net.SplitHostPort(address)
+	if err != nil {
+		return nil, err
+	}
+	if host != "" && net.ParseIP(host) == nil {
+		return nil, &net.DNSError{Err: "no such host", Name: host, IsNotFound: true}
+	}
+	return net.ResolveTCPAddr(network, address)
+}
